@@ -1,7 +1,7 @@
 (* C17 — Emitted bytecode is well formed and the VM cannot be crashed.
    Property theorems only; proofs are [exact <lemma>]. *)
 From Coq Require Import ZArith NArith List String.
-From EvyV Require Import Base SymTab SymTabProofs Bytecode BytecodeProofs Vm VmProofs Compile CompileSem CompileWfProofs CompileSymProofs CompileCtlProofs CompileCoverProofs LocalInit LocalInitProofs CompileInitProofs.
+From EvyV Require Import Base SymTab SymTabProofs Bytecode BytecodeProofs Vm VmProofs VmHeap VmHeapProofs Compile CompileSem CompileWfProofs CompileSymProofs CompileCtlProofs CompileCoverProofs LocalInit LocalInitProofs CompileInitProofs.
 Require Import EvyV.Gen.Opcodes.
 Import ListNotations.
 Open Scope N_scope.
@@ -61,6 +61,32 @@ Theorem C17_wf_vm_safe_heap_partial : forall (p : program), WF (info_of p) ->
     end.
 Proof. exact wf_vm_safe_heap_partial. Qed.
 Print Assumptions C17_wf_vm_safe_heap_partial.
+
+(* … and a theorem about a VM model that HAS the heap: VmHeap.v models arrays
+   and maps the way vm.go has them — an arrayVal is a reference to its backing
+   array, a mapVal carries its own copy of `order` and a reference to the
+   shared Go map — and its OpSetIndex performs the store (array element; map
+   value, inserting a new key into m but into no stored `order`), visible
+   through every alias on the stack, in locals, globals and inside other
+   arrays and maps.  The extracted hvm_step is compared with the real VM on
+   generated programs with element stores and aliasing (C16, stream keys
+   vm-heap-model-compared, vm-heap-model-differs).  For every well-formed program, in every state reachable
+   by that VM: sp >= LocalCount; the loop ends exactly at the end of the code
+   with sp = LocalCount; no underflow, no out-of-range operand, no bad fetch.
+   Partial: CType (unchecked type assertion — needs typing) and CHost are not
+   excluded; CHost is only the unbounded recursion of Equals / deepCopy through
+   a CYCLIC heap, which well-formed but ill-typed bytecode can build (a[0] = a;
+   the host dies on the real VM as well). *)
+Theorem C17_wf_vm_safe_store_partial : forall (p : program), WF (info_of p) ->
+  forall s, hreachable p s ->
+    plcount p <= hsp_of s /\
+    match hvm_step p s with
+    | HRunning _ | HFailed _ => True
+    | HHalted s' => hip s' = N.of_nat (List.length (pcode p)) /\ hsp_of s' = plcount p
+    | HCrashed c => c = CType \/ c = CHost
+    end.
+Proof. exact wf_hvm_safe_store_partial. Qed.
+Print Assumptions C17_wf_vm_safe_store_partial.
 
 (* ---------- definite initialisation of local slots ---------- *)
 (* WF bounds the operand of OpGetLocal / OpSetLocal by LocalCount; it does not
@@ -409,6 +435,42 @@ Example C17_ex_linit :
   | COk st => let bc := bytecode_of st in
               linit_check {| bcode := out_code bc; nconsts := N.of_nat (List.length (out_consts bc));
                              gcount := out_gcount bc; lcount := out_lcount bc |} = true
+  | CErr _ => False
+  end.
+Proof. vm_compute. repeat split; reflexivity. Qed.
+
+(* the VM with the store on a program with aliasing:
+     a := [1 2 3]; b := a; b[0] = 9; m := {k:1}; n := m; n["z"] = 5; r := m["z"]; c := [a] + []; a[1] = 7
+   WF, runs to the end with sp = LocalCount; afterwards a (through b) is [9 7 3], c = [[9 7 3]] (the
+   concatenation copied the reference), r = 5 (the inserted key is in the shared Go map) while m still
+   reads back {k:1} (no stored `order` got the key: vm-map-insert-lost) *)
+Definition ex_alias : slist :=
+  let num k := ENum (float_of_Z k) in
+  let v x := EVar (s_ x) in
+  SCons (SDecl (s_ "a") (EArr (ECons (num 1%Z) (ECons (num 2%Z) (ECons (num 3%Z) ENil)))))
+ (SCons (SDecl (s_ "b") (v "a"))
+ (SCons (SAssign (EIndex (v "b") (num 0%Z)) (num 9%Z))
+ (SCons (SDecl (s_ "m") (EMap (PCons (s_ "k") (num 1%Z) PNil) 1%Z))
+ (SCons (SDecl (s_ "n") (v "m"))
+ (SCons (SAssign (EIndex (v "n") (EStr (s_ "z"))) (num 5%Z))
+ (SCons (SDecl (s_ "r") (EIndex (v "m") (EStr (s_ "z"))))
+ (SCons (SDecl (s_ "c") (EBin BPlus TArr TArr (EArr (ECons (v "a") ENil)) (EArr ENil)))
+ (SCons (SAssign (EIndex (v "a") (num 1%Z)) (num 7%Z)) SNil)))))))).
+
+Example C17_ex_store_aliasing :
+  match compile ex_alias with
+  | COk st =>
+      let p := program_of (bytecode_of st) in
+      wf_check (info_of p) = true /\
+      match hvm_run 2000 p (hvm_init p) with
+      | HFHalted s =>
+          let arr l := VArr (map (fun z => VNum (float_of_Z z)) l) in
+          hsp_of s = plcount p /\
+          map (resolve 10 (hheap s)) (hglobals s)
+          = [arr [9; 7; 3]%Z; arr [9; 7; 3]%Z; VMap [(s_ "k", VNum (float_of_Z 1))]; VMap [(s_ "k", VNum (float_of_Z 1))];
+             VNum (float_of_Z 5); VArr [arr [9; 7; 3]%Z]]
+      | _ => False
+      end
   | CErr _ => False
   end.
 Proof. vm_compute. repeat split; reflexivity. Qed.
